@@ -17,6 +17,8 @@ RULES = {
     "C16.R6": "magnitudes near the dtype maximum: the affine range width and the zero-point are computed without an intermediate that exceeds the extrema themselves (no raw `rmax - rmin` of opposite-sign extrema, no extremum multiplied by the code span)",
     "C16.R9": "inference after calibration stays finite and uses the current weights: the quantized linear applies every scale before the accumulator is narrowed to the module dtype (C07.R2: a partially scaled product overflows float16 although the result is representable), and the dynamic weight is quantized from the current self.weight on every access (a layer whose weights were zeroed outputs its bias)",
     "C16.R7": "the error bounds of C01/C02 hold on the degenerate classes too: the quantizer pipelines of C01.R1 (divide by the stored scale, sanitise, round iff integer, clamp to the storage range for EVERY qtype, cast) and C02.R1/R3 (divide by the stored scale with no offset, round, add zero-point, clamp, cast; matching dequantizer) are re-checked here",
+    "C16.R10": "a scale may be zero (an all-zero row, channel or batch): outside the quantizer pipelines judged by R1 / R7 - in the operator handlers, the function wrappers, the kernels, the modules and the calibration hooks - no quotient has a scale in its denominator unless that quotient is sanitised (nan_to_num / where on the scale) before it is used",
+    "C16.R11": "calibrated scales are finite whenever the batch is: the hooks store absmax / qmax of the tensor they observe, through the moving average alone (the rules C12.R3 / C12.R4 re-checked - a statistic over a selection that can be empty is NaN)",
     "C16.R4": "dequantization multiplies codes by the scale only: a zero scale yields exactly zero, a finite scale finite values",
 }
 
@@ -116,6 +118,9 @@ def run(chk):
                 pass
         c07.linear_forward(AliasedCheck(chk, {"C07.R2": "C16.R9"}), hn)
         qweight_source(chk, r2="C16.R9", r3="C16.R9")
+        scale_denominators(chk)
+        from . import c12
+        c12.run(AliasedCheck(chk, {"C12.R3": "C16.R11", "C12.R4": "C16.R11"}))
     chk.assume("x * 0 == 0 and finite * finite is finite within the dtype range; overflow near the dtype maximum is decided for the affine range width and zero-point only (C16.R6), where an intermediate can exceed the data by construction")
 
 
@@ -233,3 +238,68 @@ def overflow_rule(chk):
         else:
             chk.ok("C16.R6", site, f"{qn}: no extremum is multiplied by a constant larger than one")
     chk.floor("C16.R6", n, 1, "affine optimizer return paths")
+
+
+_SCALE_DIV_EXAMPLE = """
+def handler(op, input, weight, bias):
+    out_scales = input._scale.to(torch.float32) * weight._scale.to(torch.float32)
+    acc_bias = bias.to(torch.float32) / out_scales.flatten()
+    safe = torch.nan_to_num(bias / out_scales, nan=0.0)
+    ratio = input._scale / 2
+    return acc_bias, safe, ratio
+"""
+
+
+def _scale_denominators(fn):
+    """the division nodes of `fn` whose denominator is derived from a scale (`._scale`, or a local computed from one) and whose quotient is not
+    the direct argument of a sanitiser"""
+    derived = set()
+    changed = True
+    assigns = [a for a in ast.walk(fn) if isinstance(a, ast.Assign) and len(a.targets) == 1 and isinstance(a.targets[0], ast.Name)]
+
+    def scaly(e):
+        return any((isinstance(n, ast.Attribute) and n.attr in ("_scale", "input_scale", "output_scale")) or (isinstance(n, ast.Name) and n.id in derived) for n in ast.walk(e))
+    while changed:
+        changed = False
+        for a in assigns:
+            if a.targets[0].id not in derived and scaly(a.value):
+                derived.add(a.targets[0].id)
+                changed = True
+    sanitised = set()
+    for n in ast.walk(fn):
+        if isinstance(n, ast.Call) and U(n.func).split(".")[-1] in ("nan_to_num", "nan_to_num_", "where") and n.args:
+            for x in ast.walk(n):
+                sanitised.add(id(x))
+    out = []
+    for n in ast.walk(fn):
+        den = None
+        if isinstance(n, ast.BinOp) and isinstance(n.op, (ast.Div, ast.FloorDiv)):
+            den = n.right
+        elif isinstance(n, ast.Call) and U(n.func).split(".")[-1] in ("div", "divide", "true_divide", "div_") and (len(n.args) == 2 or (isinstance(n.func, ast.Attribute) and not U(n.func).startswith("torch.") and len(n.args) == 1)):
+            den = n.args[-1]
+        elif isinstance(n, ast.Call) and U(n.func).split(".")[-1] == "reciprocal" and (n.args or isinstance(n.func, ast.Attribute)):
+            den = n.args[0] if n.args else n.func.value
+        if den is not None and scaly(den) and id(n) not in sanitised:
+            out.append(n)
+    return out
+
+
+def scale_denominators(chk):
+    tree = ast.parse(_SCALE_DIV_EXAMPLE)
+    got = _scale_denominators(tree.body[0])
+    if len(got) != 1:
+        raise AnalysisError(f"scale-denominator detector finds {len(got)} of the 1 unsanitised quotient of its built-in example")
+    repo = chk.repo
+    n = 0
+    scope = ("optimum/quanto/tensor/qbytes_ops.py", "optimum/quanto/tensor/qbits/qbits_ops.py", "optimum/quanto/tensor/qtensor_func.py", "optimum/quanto/library/", "optimum/quanto/nn/", "optimum/quanto/calibrate.py",
+             "optimum/quanto/tensor/qbytes.py", "optimum/quanto/tensor/qbits/qbits.py", "optimum/quanto/tensor/qbits/awq/qbits.py")
+    for mi in repo.modules.values():
+        if not any(mi.rel.startswith(s_) for s_ in scope):
+            continue
+        for fn in [x for x in ast.walk(mi.tree) if isinstance(x, ast.FunctionDef)]:
+            n += 1
+            for d in _scale_denominators(fn):
+                chk.bad("C16.R10", f"{mi.rel}:{d.lineno}", fn.name, "quotient with a scale in its denominator", f"NOT: `{U(d)[:70]}` in {fn.name} divides by a scale, which is zero for an all-zero row / channel / batch, and the quotient is not sanitised",
+                        "a QConv2d with a bias and a pruned (all-zero) output channel, or an all-zero calibration batch: bias / 0 = inf, (acc + inf) * 0 = NaN - the output of the layer is NaN instead of its bias")
+    chk.ok("C16.R10", "optimum/quanto", f"{n} functions of the handlers, wrappers, kernels, modules and hooks scanned: no unsanitised quotient by a scale")
+    chk.floor("C16.R10", n, 60, "functions scanned for quotients by a scale")
